@@ -421,6 +421,23 @@ def replay(ctx, mod, path):
     return 2
 
 
+def classify_crash(stderr):
+    """A Go 'fatal error:' / 'panic:' whose first frame outside the runtime/sync packages lies in hive.go is behaviour
+    of the code under test (returns the message); if a harness frame comes first it is a harness problem (None)."""
+    msg = None
+    for line in stderr.splitlines():
+        if msg is None:
+            if line.startswith("fatal error:") or line.startswith("panic:"):
+                msg = line.strip()
+            continue
+        l = line.strip()
+        if l.startswith("github.com/iotaledger/hive.go/"):
+            return msg
+        if l.startswith("verifharness/") or l.startswith("main."):
+            return None
+    return None
+
+
 class TraceUnit(Unit):
     """code -> model with a custom recorder: a harness sub-command writes an NDJSON file (many traces, each
     starting with an op=reset line) which TLC validates against <module> (Do(Trace[l]) /\\ ev' = Trace[l])."""
@@ -449,6 +466,15 @@ class TraceUnit(Unit):
             ctx.violation(self.name, "%s:race" % self.sut, "data race reported by the Go race detector (see %s)" % save,
                           {"kind": "race", "report": p.stderr[-6000:]})
         elif p.returncode != 0:
+            crash = classify_crash(p.stderr or "")
+            if crash:
+                save = os.path.join(ctx.out, self.name.replace(":", "_") + ".crash.txt")
+                with open(save, "w") as fh:
+                    fh.write(p.stderr)
+                ctx.violation(self.name, "%s:crash:%s" % (self.sut, crash[:60]),
+                              "the real code crashed under the driver: %s (first frame outside the Go runtime is in hive.go; see %s)" % (crash, save),
+                              {"kind": "crash", "report": p.stderr[-6000:]})
+                return
             raise Inconclusive("recorder %s died: %s" % (self.command, (p.stderr or p.stdout)[-2000:]))
         validate_file(ctx, self, ctx.spec(self.sub), self.module, tr, cfgkind=self.cfgkind, timeout=self.timeout)
 
